@@ -34,7 +34,7 @@ def clone(node):
     new = type(node)()
     for f, v in ast.iter_fields(node):
         setattr(new, f, clone(v))
-    for a in ('lineno', 'col_offset', 'end_lineno', 'end_col_offset'):
+    for a in ('lineno', 'col_offset', 'end_lineno', 'end_col_offset', '_src_line'):
         if hasattr(node, a):
             setattr(new, a, getattr(node, a))
     return new
